@@ -379,6 +379,16 @@ pub fn spell_into(v: &Val, rng: &mut Rng, level: u8, out: &mut Vec<u8>) {
                 spell_into(x, rng, level, out);
                 ws(rng, level, out);
             }
+            if level >= 2 && !ms.is_empty() && rng.chance(1, 6) {
+                // a producer that writes a member twice: the same name with the same value
+                // once more at the end (whichever of the two a reader keeps, the object
+                // means the same)
+                let (k, x) = &ms[rng.below(ms.len())];
+                out.push(b',');
+                spell_string(k, rng, level, out);
+                out.push(b':');
+                spell_into(x, rng, level, out);
+            }
             out.push(b'}');
         }
     }
